@@ -33,6 +33,7 @@ def units(tier, seed):
     out.append({"stage": "degenerate"})
     out.append({"stage": "magnitude"})
     out.append({"stage": "large-weights"})
+    out.append({"stage": "narrow-float"})
     try:
         from mc.env import tape  # noqa: F401
         for p in (1, 2, 3):
@@ -173,6 +174,37 @@ def check_large_weights(idx, assign_kind):
     return out
 
 
+NARROW = ("float32", "float16", "int8", "uint8", "int32")
+
+
+def check_narrow(dtype, assign):
+    """A model whose mean / variance arrays have a narrow dtype, intervention parameters that this dtype cannot represent (0.1, 0.3, 0.7):
+    the law must be that of the float64 parameters (all 8^3 assignments on the chain 0 -> 1 -> 2 with weights 2, -3)."""
+    W = np.array([[0, 2.0, 0], [0, 0, -3.0], [0, 0, 0]])
+    means = np.array([1, 2, 4], dtype=dtype)
+    variances = np.array([2, 1, 4], dtype=dtype)
+    par = {"do": (0.1, 0.3), "noise": (0.3, 0.7), "shift": (0.7, 0.1)}
+    kinds = {"do": {}, "noise": {}, "shift": {}}
+    for j, a in enumerate(assign):
+        for bit, k in ((1, "do"), (2, "noise"), (4, "shift")):
+            if a & bit:
+                kinds[k][j] = par[k]
+    desc = "LGANM(chain weights (2, -3), means=%s, variances=%s as %s arrays).sample(population=True, do=%s, noise=%s, shift=%s)" % (
+        means.tolist(), variances.tolist(), dtype, kinds["do"], kinds["noise"], kinds["shift"])
+    try:
+        d = sempler.LGANM(W, means, variances).sample(population=True, do_interventions=dict(kinds["do"]),
+                                                      noise_interventions=dict(kinds["noise"]), shift_interventions=dict(kinds["shift"]))
+    except Exception as e:
+        return [("lganm:narrow-dtype-raises", "%s raised %r" % (desc, e))]
+    em, ec, *_ = Q.scm_law(W.tolist(), [float(x) for x in means], [float(x) for x in variances], do=kinds["do"], noise=kinds["noise"], shift=kinds["shift"])
+    scale = max([1.0] + [abs(float(x)) for x in em] + [abs(float(x)) for row in ec for x in row])
+    worst = max([abs(float(d.mean[i]) - float(em[i])) for i in range(3)] + [abs(float(d.covariance[i, j]) - float(ec[i][j])) for i in range(3) for j in range(3)])
+    if worst > 1e-12 * scale:
+        return [("lganm:narrow-dtype-parameters", "%s: mean %s, covariance diagonal %s; exact law has mean %s, diagonal %s (error %.3g: parameters were "
+                 "rounded to the dtype of the model arrays)" % (desc, np.asarray(d.mean).tolist(), np.diag(d.covariance).tolist(), [float(x) for x in em], [float(ec[i][i]) for i in range(3)], worst))]
+    return []
+
+
 def degenerate_cases():
     cases = []
     for p in (1, 2, 3):
@@ -304,6 +336,19 @@ def run_unit(unit):
                 for sig, msg in f:
                     acc.fail("large-weights", {"idx": idx, "kind": kind}, sig, msg)
         return acc.out()
+    if st == "narrow-float":
+        for dtype in NARROW:
+            for assign in itertools.product(range(8), repeat=3):
+                f = check_narrow(dtype, assign)
+                acc.states += 1
+                acc.transitions += 1
+                acc.traces += 1
+                acc.extra["narrow_dtype_cases"] += 1
+                if any(assign):
+                    acc.nontrivial += 1
+                for sig, msg in f:
+                    acc.fail("narrow", {"dtype": dtype, "assign": list(assign)}, sig, msg)
+        return acc.out()
     if st == "magnitude":
         for p in (1, 2, 3):
             for style in ("tuple", "float"):
@@ -351,6 +396,8 @@ def replay(kind, case):
         return check_large_weights(case["idx"], case["kind"])
     if kind == "magnitude":
         return check_magnitude(case["p"], tuple(case["assign"]), case["style"])
+    if kind == "narrow":
+        return check_narrow(case["dtype"], tuple(case["assign"]))
     if kind == "ranges":
         return check_ranges(case["p"], case["mrange"], case["vrange"], case["answers"], case["seed_arg"])[0]
     return check_law(case["p"], case["code"], case["lab"], case["cfg"], tuple(case["assign"]), case["style"])
@@ -363,7 +410,7 @@ def describe(tier, seed):
         "rule": "every labelled DAG p<=3 (25 at p=3) x {generic float, cancelling weights with a zero variance, int64 W/means/variances, int W only} x "
                 "all 8^p assignments of a subset of {do, noise, shift} per variable x parameter styles {(mean,var) tuple with fractional values, "
                 "float scalar, int scalar, integer tuple, tuple with the dict keys inserted in descending order}; quick adds every 40th 4-node DAG, thorough all 543 4-node DAGs x 4096 assignments for a "
-                "float and an int64 model; None / {} for every keyword combination; edgeless models with noise parameters of magnitude 2^50..2^60 under all 8^p assignments (entrywise relative accuracy); complete and chain DAGs on 4..8 nodes with positive weights 100..1e8 (no exception, entrywise relative accuracy against the exact law); LGANM(W,(lo,hi),(lo,hi)) for 5 mean ranges x 3 variance "
+                "float and an int64 model; None / {} for every keyword combination; edgeless models with noise parameters of magnitude 2^50..2^60 under all 8^p assignments (entrywise relative accuracy); complete and chain DAGs on 4..8 nodes with positive weights 100..1e8 (no exception, entrywise relative accuracy against the exact law); mean / variance arrays of dtype float32, float16, int8, uint8, int32 with parameters 0.1, 0.3, 0.7 under all 8^3 assignments on a 3-chain; LGANM(W,(lo,hi),(lo,hi)) for 5 mean ranges x 3 variance "
                 "ranges with all 3^(2p) answers of the uniform cells, p<=3. non-trivial: some variable carries overlapping interventions",
         "exhaustive": True,
         "bounds": {"p_exhaustive": 4 if tier == "thorough" else 3},
